@@ -6,6 +6,7 @@ CONSTANTS
   MaxNALs265 = 0
   EmitLen = 99
   DevH265UpdaterComparesStored = FALSE
+  DevOfflineRestartKeepsParams = FALSE
 INVARIANTS Verdicts Drift
 POSTCONDITION Accepted
 CHECK_DEADLOCK FALSE
